@@ -562,6 +562,15 @@ def check(rep):
     rep.assumptions = ['line-granularity scheduling under the GIL; free-threaded builds and C-level races are not modelled',
                        'falcon.routing.compiled.Lock is rebound to a cooperative lock by the harness (no source hook)',
                        "asyncio's FIFO ready queue is kept"]
+    # Solo observations first.  This also brings the process-wide caches (media type parsing, status lines,
+    # header names ...) into their steady state BEFORE any schedule is explored: a first execution that misses a
+    # cache runs through different lines than the replays that hit it, which would make prefixes diverge.
+    # (Cold-versus-warm behaviour is the subject of the sequential 'histories' part.)
+    for kind in ('wsgi', 'asgi'):
+        for size in ('small', 'full', 'dep'):
+            for n in REQS:
+                solo(kind, size, n)
+                solo(kind, size, n)
     # threads
     tj = thr_jobs(thr_cfgs, rep)
     par.run_shards(thr_shard, tj, rep)
